@@ -198,6 +198,8 @@ def describe(case):
         d.append("with_failures")
     if case.get("fail_region"):
         d += ["fails_around_optimum", "filter_failures=" + kw.get("filter_failures", "min")]
+    if kw.get("update_prior"):
+        d.append("update_prior")
     if case.get("seed_kind", "int") != "int":
         d.append("seed_kind=" + case["seed_kind"])
     if case.get("calls"):
@@ -234,19 +236,42 @@ def spec_of(case, seed, perturb):
     return s
 
 
-def start_child(specs, hashseed):
+QUIET = {}
+# what an application around the search may look like: logging configured at DEBUG with a handler, warnings shown, another number of OpenMP
+# threads, progress bars disabled by the environment, another working directory, asserts stripped (python -O), verbose=1
+# (sys.flags: -b in the quick tier; -O as well in the thorough tier - without byte-code cache it recompiles every module, +5 s per process)
+LOUD = dict(log="DEBUG", warnings="always", omp="2", tqdm_disable="1", cwd=True, pyflags=["-b"], verbose=1)
+
+
+def start_child(specs, hashseed, ambient=None):
+    ambient = ambient or QUIET
     env = dict(os.environ)
-    env.update(PYTHONHASHSEED=str(hashseed), OMP_NUM_THREADS="1", OPENBLAS_NUM_THREADS="1", MKL_NUM_THREADS="1", PYTHONWARNINGS="ignore")
-    return subprocess.Popen(["/venv/bin/python", os.path.join(HERE, "c07_child.py"), json.dumps(specs)], env=env, stdout=subprocess.PIPE, stderr=subprocess.PIPE, text=True)
+    env.update(PYTHONHASHSEED=str(hashseed), OMP_NUM_THREADS=ambient.get("omp", "1"), OPENBLAS_NUM_THREADS="1", MKL_NUM_THREADS="1",
+               PYTHONWARNINGS="default" if ambient.get("warnings") else "ignore")
+    if ambient.get("tqdm_disable"):
+        env["TQDM_DISABLE"] = ambient["tqdm_disable"]
+    cwd = None
+    if ambient.get("cwd"):
+        cwd = tempfile.mkdtemp(prefix="vp_c07_cwd_")
+    specs = [dict(s, ambient=ambient) for s in specs]
+    p = subprocess.Popen(["/venv/bin/python"] + list(ambient.get("pyflags", [])) + [os.path.join(HERE, "c07_child.py"), json.dumps(specs)], env=env, cwd=cwd,
+                         stdout=subprocess.PIPE, stderr=subprocess.PIPE, text=True)
+    p._vp_cwd = cwd
+    return p
 
 
 def finish_child(p, n, timeout=240):
+    import shutil
+
     try:
         out, err = p.communicate(timeout=timeout)
     except subprocess.TimeoutExpired:
         p.kill()
         p.communicate()
         return [{"error": "ChildTimeout", "trace": ""}] * n
+    finally:
+        if getattr(p, "_vp_cwd", None):
+            shutil.rmtree(p._vp_cwd, ignore_errors=True)
     for line in reversed(out.splitlines()):
         if line.startswith("C07OUT "):
             return json.loads(line[7:])
@@ -272,7 +297,8 @@ def check_pair(case):
     ha, hb = case.get("ha", 1), case.get("hb", 2)
     res = dict(ok=True, kind="oracle", clause="", sig={}, nontrivial=False, desc=describe(case))
     ca = start_child([spec_of(case, case["seed"], pa)], ha)
-    cb = start_child([spec_of(case, case["seed"], pb), spec_of(case, case["seed2"], pb)], hb)
+    loud = LOUD if case.get("ambient", True) else QUIET
+    cb = start_child([spec_of(case, case["seed"], pb), spec_of(case, case["seed2"], pb)], hb, loud)
     (A,), (B, C) = finish_child(ca, 1), finish_child(cb, 2)
     errs = [r.get("error") for r in (A, B, C)]
     if any(e in ("ChildTimeout", "ChildCrashed") for e in errs):
@@ -293,11 +319,24 @@ def check_pair(case):
             continue
         verdict, first = m.call(F_OK, [trace_of(A, key), trace_of(B, key), trace_of(C, key)])
         if verdict == 1:
-            cause, extra = diagnose(case, A, key, pa, pb, ha, hb)
-            return dict(res, ok=False, clause=CLAUSE[1], sig=sig_of(case, CLAUSE[1], cause=cause), nontrivial=True,
+            fam = json.dumps([case["search"], case.get("seed_kind", "int"), bool(case.get("threads")), bool(case.get("interfere")), key], sort_keys=True)
+            if fam in _cause_cache:      # the same family failed before in this process (delta debugging): the diagnosis is not repeated
+                cause, extra = _cause_cache[fam], dict(diagnosis="as for the first failure of this family in this process")
+            else:
+                cause, extra = diagnose(case, A, key, pa, pb, ha, hb, loud)
+                _cause_cache[fam] = cause
+            # one report per failure class: the acquisition function only identifies a class for a global-generator dependence (F09), the kind
+            # of seed only when identical processes differ (F87)
+            sig = dict(clause=CLAUSE[1], search=case["search"], cause=cause)
+            if cause == "global_rng" and case["search"] == "CBO":
+                acq = case.get("kwargs", {}).get("acq_func", "UCBd")
+                sig["acq"] = acq if acq.startswith("MES") else "non-MES"
+            if cause == "process" and case.get("seed_kind", "int") not in ("int", "RandomState"):
+                sig["seed_kind"] = case["seed_kind"]
+            return dict(res, ok=False, clause=CLAUSE[1], sig=sig, nontrivial=True,
                         detail=dict(observable=key, first_difference_at=first, cause=cause, run_a=A[key][first:first + 1] if first < len(A[key]) else "shorter",
                                     run_b=B[key][first:first + 1] if first < len(B[key]) else "shorter", n_a=len(A[key]), n_b=len(B[key]),
-                                    processes=dict(a=dict(PYTHONHASHSEED=ha, perturb=pa), b=dict(PYTHONHASHSEED=hb, perturb=pb)), global_generators_touched=touched,
+                                    processes=dict(a=dict(PYTHONHASHSEED=ha, perturb=pa, ambient=QUIET), b=dict(PYTHONHASHSEED=hb, perturb=pb, ambient=loud)), global_generators_touched=touched,
                                     exceptions=dict(a=errs[0], b=errs[1]), **extra))
         if verdict == 2 and not (len(A[key]) == 0 and errs[0]):   # nothing proposed before a reproducible exception: no seed can show
             return dict(res, ok=False, clause=CLAUSE[2], sig=sig_of(case, CLAUSE[2]), nontrivial=True,
@@ -311,24 +350,25 @@ def check_pair(case):
     return res
 
 
-def diagnose(case, A, key, pa, pb, ha, hb):
-    """Which of the two differences between the processes matters?  (one factor at a time, plus an identical twin)"""
-    c1 = start_child([spec_of(case, case["seed"], pa)], hb)   # only the hash seed differs from A
-    c2 = start_child([spec_of(case, case["seed"], pb)], ha)   # only the global-generator perturbation differs from A
-    c3 = start_child([spec_of(case, case["seed"], pa)], ha)   # identical twin
-    (H,), (G,), (T,) = finish_child(c1, 1), finish_child(c2, 1), finish_child(c3, 1)
+_cause_cache = {}
+
+
+def diagnose(case, A, key, pa, pb, ha, hb, loud):
+    """Which of the differences between the two processes matters?  (one factor at a time, plus an identical twin)"""
+    c1 = start_child([spec_of(case, case["seed"], pa)], hb)          # only the hash seed differs from A
+    c2 = start_child([spec_of(case, case["seed"], pb)], ha)          # only the global-generator perturbation differs from A
+    c3 = start_child([spec_of(case, case["seed"], pa)], ha)          # identical twin
+    c4 = start_child([spec_of(case, case["seed"], pa)], ha, loud)    # only the ambient state (logging, warnings, environment, cwd, -O, verbose) differs
+    (H,), (G,), (T,), (M,) = finish_child(c1, 1), finish_child(c2, 1), finish_child(c3, 1), finish_child(c4, 1)
     same = lambda r: r.get("error") not in ("ChildTimeout", "ChildCrashed") and trace_of(r, key) == trace_of(A, key)
-    if not same(T):
-        cause = "process"
-    elif not same(H) and same(G):
-        cause = "hashseed"
-    elif same(H) and not same(G):
-        cause = "global_rng"
-    elif not same(H) and not same(G):
-        cause = "hashseed+global_rng"
-    else:
-        cause = "interaction"
-    return cause, dict(one_factor=dict(identical_twin_same=same(T), only_hashseed_differs_same=same(H), only_global_rng_differs_same=same(G)))
+    factors = [n for n, r in (("hashseed", H), ("global_rng", G), ("ambient", M)) if not same(r)]
+    cause = "process" if not same(T) else "+".join(factors) if factors else "interaction"
+    extra = dict(one_factor=dict(identical_twin_same=same(T), only_hashseed_differs_same=same(H), only_global_rng_differs_same=same(G), only_ambient_differs_same=same(M)))
+    if "ambient" in factors:
+        # which part of the ambient state?
+        kids = {k2: start_child([spec_of(case, case["seed"], pa)], ha, {k2: loud[k2]}) for k2 in LOUD if k2 in loud}
+        extra["ambient_parts_same"] = {k2: same(finish_child(p2, 1)[0]) for k2, p2 in kids.items()}
+    return cause, extra
 
 
 # ---------------------------------------------------------------------------------------------- generators
@@ -349,37 +389,44 @@ def base_case(rng, **k):
 
 def quick_catalogue(rng, full=False):
     B = [2, 2, 3, 3, 2]
-    return [
+    base = [
         base_case(rng, kwargs=K(acq_func="UCBd")),
         base_case(rng, space="cond", kwargs=K(surrogate_model="RF", acq_func="EI")),
         base_case(rng, space="flat_many", kwargs=K(surrogate_model="DUMMY", acq_func="UCB")),
         base_case(rng, space="flat_real", nobj=2, kwargs=K(acq_func="PI", initial_point_generator="sobol")),
         base_case(rng, mode="ask", batches=B, kwargs=K(acq_func="UCB", multi_point_strategy="cl_min")),
         base_case(rng, space="cond", mode="ask", batches=B, kwargs=K(acq_func="UCBd", multi_point_strategy="qUCB")),
-        base_case(rng, evals=20, kwargs=K(acq_func="MES", n_initial_points=3)),      # F09: about half of the 12-evaluation runs differ; 20 evaluations, two classes
-        base_case(rng, space="cond", evals=20, kwargs=K(acq_func="MESd", n_initial_points=3)),
+        base_case(rng, evals=12, kwargs=K(acq_func="MES", n_initial_points=3)),
+        base_case(rng, space="cond", evals=12, kwargs=K(acq_func="MESd", n_initial_points=3)),
         base_case(rng, search="Random", space="cond"),
         base_case(rng, search="RegEvo", space="flat_many", evals=14, kwargs=dict(population_size=6, sample_size=3)),
         base_case(rng, space="forbid", fail_mod=3, kwargs=K(surrogate_model="RF", acq_func="gp_hedge", initial_point_generator="lhs")),
         base_case(rng, search="Random", space="flat_mixed", mode="ask", batches=[3, 2, 4]),
         base_case(rng, space="flat_many", kwargs=K(acq_func="EId", initial_point_generator="halton")),
-    ] + stress_catalogue(rng) + sweep_catalogue(rng, full)
+    ]
+    if not full:   # quick tier: one representative per family (the others run in the thorough tier)
+        base = [base[i] for i in (0, 1, 2, 3, 4, 5, 6, 8, 9, 10)]
+    return base + stress_catalogue(rng, full) + sweep_catalogue(rng, full)
 
 
-def stress_catalogue(rng):
+def stress_catalogue(rng, full=False):
     """Configurations that reach the rarely executed paths: a run-function failing around the optimum (so model-based suggestions fail: the
     filter_failures paths, Optimizer.update_next after an all-failed batch with 'ignore'), and a small fully discrete space with a string
     categorical (every candidate batch contains duplicates / already sampled points: Optimizer._filter_duplicated really filters)."""
     B = [2, 2, 2, 2, 2, 2, 2]
-    return [
+    cat = [
         base_case(rng, space="flat_real", fail_region=0.4, evals=14, kwargs=K(acq_func="UCBd", filter_failures="ignore")),
         base_case(rng, space="cond", fail_region=0.4, evals=14, kwargs=K(acq_func="UCBd", filter_failures="ignore")),
         base_case(rng, space="flat_real", fail_region=0.6, mode="ask", batches=B, kwargs=K(acq_func="UCBd", filter_failures="ignore", multi_point_strategy="qUCB")),
         base_case(rng, space="flat_mixed", fail_region=0.6, mode="ask", batches=B, kwargs=K(acq_func="UCB", filter_failures="mean", multi_point_strategy="cl_max")),
         base_case(rng, space="flat_mixed", fail_region=0.4, evals=12, kwargs=K(surrogate_model="RF", acq_func="EI", filter_failures="min")),
+        base_case(rng, space="flat_real", evals=12, kwargs=K(acq_func="UCB", update_prior=True)),   # Real.rvs samples from the fitted KDE
         base_case(rng, space="discrete", evals=12, kwargs=K(acq_func="UCBd")),
         base_case(rng, space="discrete", mode="ask", batches=[2, 3, 2, 3, 2], kwargs=K(surrogate_model="DUMMY", acq_func="UCB", multi_point_strategy="cl_max")),
-    ] + shared_catalogue(rng)
+    ]
+    if not full:
+        cat = [cat[i] for i in (0, 2, 3, 5, 6)]
+    return cat + shared_catalogue(rng, full)
 
 
 def sweep_catalogue(rng, full=False):
@@ -404,7 +451,7 @@ def sweep_catalogue(rng, full=False):
         base_case(rng, space="flat_real", evals=9, const_obj=True, kwargs=K(surrogate_model="RF", acq_func="EI")),
         base_case(rng, space="flat_real", evals=8, fail_region=100.0, kwargs=K(acq_func="UCBd", filter_failures="mean")),
     ]
-    return cat if full else [cat[i] for i in (0, 1, 2, 4, 6, 7, 8, 9, 10)]
+    return cat if full else [cat[i] for i in (0, 2, 4, 6, 7, 8, 9, 10)]
 
 
 def variant_case(rng):
@@ -427,12 +474,12 @@ def variant_case(rng):
     return base_case(rng, **c)
 
 
-def shared_catalogue(rng):
+def shared_catalogue(rng, full=False):
     """(a) the observed search shares its HpProblem OBJECT with another search (other seed) built after it in the same process, which draws before
     and between the steps of the observed one - a different number of sampling calls in the two processes; (b) CBO with n_jobs = 4: the
     per-dimension sampling tasks of Space.rvs run in a thread pool (another thread-switch interval in each process, two runs per process)."""
     RE = dict(population_size=5, sample_size=2)
-    return [
+    cat = [
         base_case(rng, search="Random", space="cond", evals=8, interfere="Random"),
         base_case(rng, search="Random", space="flat_many", mode="ask", batches=[2, 1, 3, 2], interfere="RegEvo"),
         base_case(rng, search="RegEvo", space="flat_mixed", mode="ask", batches=[3, 3, 2, 2, 2], kwargs=RE, interfere="Random"),
@@ -442,6 +489,7 @@ def shared_catalogue(rng):
         base_case(rng, space="flat_many", evals=10, threads=True, repeat=2, kwargs=K(surrogate_model="ET", acq_func="UCBd", n_jobs=4)),
         base_case(rng, space="flat_many", evals=10, threads=True, repeat=2, kwargs=K(surrogate_model="DUMMY", acq_func="UCB", n_jobs=1)),
     ]
+    return cat if full else [cat[i] for i in (0, 2, 4, 5, 6)]
 
 
 def random_case(rng, surrogates=("DUMMY", "ET", "RF"), search=None):
@@ -472,6 +520,8 @@ def random_case(rng, surrogates=("DUMMY", "ET", "RF"), search=None):
         c.update(evals=rng.randrange(8, 14))
     if c["nobj"] > 1:
         kw["moo_scalarization_strategy"] = rng.choice(["Chebyshev", "Linear", "PBI", "AugChebyshev", "Quadratic"])
+    if rng.random() < 0.1:
+        kw["update_prior"] = True
     if rng.random() < 0.12:
         kw["n_jobs"] = rng.choice([1, 4])
         c.update(threads=True, repeat=2, space=rng.choice(["flat_many", "flat_mixed"]) if sm != "GP" else "flat_real")
@@ -496,6 +546,7 @@ def probes(rng):
         (["self._problem=", "self.space=", "self.config_space=", "config_space"], base_case(rng, search="CBO", space="cond", mode="ask", batches=[2, 2, 2, 2, 2], kwargs=K(acq_func="UCB", multi_point_strategy="cl_max"), interfere="CBO")),
         (["delayed(", "parallel", "_sample_dimension", "n_jobs"], base_case(rng, space="flat_many", evals=14, threads=True, repeat=2, kwargs=K(surrogate_model="DUMMY", acq_func="UCB", n_jobs=4))),
         (["delayed(", "parallel", "fmin_l_bfgs_b", "n_jobs"], base_case(rng, space="flat_real", evals=10, threads=True, repeat=2, kwargs=K(surrogate_model="GP", acq_func="EI", n_jobs=4))),
+        (["_kde", "resample", "update_prior", "real.rvs"], base_case(rng, space="flat_real", evals=12, kwargs=K(acq_func="UCB", update_prior=True))),
         (["update_next", "fail", "ignore", "cbo._tell", "opt_y"], base_case(rng, space="flat_real", fail_region=0.4, evals=14, kwargs=K(acq_func="UCBd", filter_failures="ignore"))),
         (["update_next", "fail", "ignore", "config_space"], base_case(rng, space="cond", fail_region=0.4, evals=14, kwargs=K(acq_func="UCBd", filter_failures="ignore"))),
         (["duplicat", "sampled", "filter", "categor"], base_case(rng, space="discrete", evals=12, kwargs=K(acq_func="UCBd"))),
@@ -526,7 +577,10 @@ def targeted_classes(rng):
         m = model()
         pr = probes(rng)
         if not a["ok"]:
-            return [c for _, c in pr[:6]], ["translator failed closed: " + a["reason"]]   # unknown shape somewhere: every class is a target
+            # unknown shape somewhere: every class is a target; the text of the offending node still tells where to look first
+            text = a["reason"].lower()
+            ranked = sorted(range(len(pr)), key=lambda n: (-sum(1 for t in pr[n][0] if t in text), n))
+            return [pr[n][1] for n in ranked[:6]], ["translator failed closed: " + a["reason"]]
         cs = a["consts"]
         known = {cs[k] for k in KNOWN_KEYS}
         old_env = {cs["S_SdvSetOrder"], cs["S_RegevoSetOrder"], cs["S_InternalAlias"]}
@@ -718,8 +772,8 @@ def gen_trace_cases(rng, tier):
     n = 40 if tier == "thorough" else 10
     cat = quick_catalogue(rng)
     if tier != "thorough":   # the usual classes plus three of the stress configurations (failing run-function, discrete space)
-        st = stress_catalogue(rng)
-        cat = cat[:8] + [st[0], st[1], st[5]]
+        st = stress_catalogue(rng, full=True)
+        cat = cat[:8] + [st[0], st[1], st[6]]
         n = len(cat)
     for c in cat[:n]:
         yield dict(c, evals=min(c.get("evals", 9), 10)) if "evals" in c else c
@@ -734,6 +788,7 @@ def gen_trace(rng, tier):
 
 
 def streams(tier):
+    LOUD["pyflags"] = ["-b", "-O"] if tier == "thorough" else ["-b"]
     return [
         Stream("process_pairs", gen_pairs, check_pair, shrink=shrink_pair, parallel=True, timeout=600, search_gen=search_around),
         Stream("site_trace", gen_trace, check_trace, shrink=shrink_pair, parallel=True, timeout=300),
